@@ -647,7 +647,10 @@ class SparselyBin(Factory, Container):
             maxBin = self.maxBin
         else:
             maxBin = self.bin(high)
-            if np.isclose(high, self.origin + self.bin_width() * maxBin):
+            # tolerance relative to the bin width and the magnitude of the edge: numpy's defaults (1e-8
+            # absolute, 1e-5 relative) swallow whole bins when they are narrow or far from zero
+            edge = self.origin + self.bin_width() * maxBin
+            if np.isclose(high, edge, rtol=2 * np.finfo(float).eps, atol=1e-9 * self.bin_width()):
                 maxBin -= 1
         numBins = maxBin + 1 - minBin
         minBinLeftEdge = self.origin + self.bin_width() * minBin
